@@ -118,7 +118,7 @@ def run_verus_unit(unit, work, seed=None, extra_smt=None):
         if not new:
             break
         force |= new
-    if any(t.startswith('resource:') for t in r.get('tool_errors', [])):
+    if any(t.startswith('resource:') and 'time limit' not in t for t in r.get('tool_errors', [])):
         # a function ran out of solver budget (never on the unchanged tree): one retry with four times the budget, so that
         # a genuinely failing obligation is reported as such instead of as "inconclusive"
         r2 = run_verus_unit_once(unit, work, seed, force, rlimit=str(int(float(VERUS_RLIMIT) * 4)))
@@ -141,7 +141,20 @@ def run_verus_unit_once(unit, work, seed, force, rlimit=None):
            '--error-format=json', '--rlimit', rlimit or VERUS_RLIMIT, '--num-threads', '8']
     if seed is not None:
         cmd += ['--smt-option', 'smt.random_seed=%d' % seed]
-    r = sh(cmd, cwd=work)
+    # own process group, so that a run that does not come back can be stopped together with its z3 children
+    proc = subprocess.Popen(cmd, cwd=work, stdout=subprocess.PIPE, stderr=subprocess.PIPE, text=True, start_new_session=True)
+    try:
+        so, se = proc.communicate(timeout=int(os.environ.get('VERIF_VERUS_TIMEOUT', '900')))
+        r = subprocess.CompletedProcess(cmd, proc.returncode, so, se)
+    except subprocess.TimeoutExpired:
+        # a solver run that does not come back (seen once with a random seed in the thorough tier): undecided, never an alarm
+        try:
+            os.killpg(proc.pid, 9)
+        except Exception:
+            pass
+        proc.communicate()
+        return dict(unit=unit, verified=0, errors=0, failures=[], tool_errors=["resource: verus did not finish within the time limit"], fstats=[], meta=meta,
+                    wall_s=round(time.time() - t0, 2), smt_ms=0, unsupported_fns=[])
     try:
         j = json.loads(r.stdout)
     except Exception:
